@@ -128,7 +128,7 @@ pub fn property() -> Property {
         rule: "generated well-formed programs over the full op set in which Push immediates carry each of the six effect opcodes and the Push opcode at every byte position, effect ops directly after a Push / at the start / at the end, and shuffled prefixes of all six effect ops; for each program all 64 effect subsets are queried (exhaustive per program). Oracle: the set folded over RefAsm's decoding of the bytes; bytes_contains_any(bytes,S) == (expected ∩ S != ∅) for all S, analyze(ops) == expected exactly. Non-trivial = an immediate contains an effect/Push opcode byte or an effect op follows a Push.",
         assumptions: vec!["effect flags are numbered as documented on `Effects` (KeyRange=1<<0 … PostKeyRangeExtern=1<<5)"],
         health: vec![("eff.all_subsets", "immediate-has-effect-byte", 300), ("eff.all_subsets", ">=4 effects", 50)],
-        subs: vec![prop_sub("eff.all_subsets", 150_000, 5_000_000, |_| prog_case(), |c: &ProgCase, obs| {
+        subs: vec![prop_sub("eff.all_subsets", 900_000, 7_200_000, |_| prog_case(), |c: &ProgCase, obs| {
             let r = oracle(c, obs);
             obs.extra_evals += 64;
             r
